@@ -143,6 +143,12 @@ impl UnitPropagate {
         match cur_state.get(new_assignment.label()) {
             None => (),
             Some(v) => {
+                #[cfg(rsdd_verif)]
+                crate::verif::probe(if v == new_assignment.polarity() {
+                    crate::verif::Probe::UpAlreadyConsistent
+                } else {
+                    crate::verif::Probe::UpAlreadyInconsistent
+                });
                 if v == new_assignment.polarity() {
                     return UnitPropResult::PartialSAT(cur_state);
                 } else {
@@ -191,6 +197,8 @@ impl UnitPropagate {
                 }
             }
             if is_sat {
+                #[cfg(rsdd_verif)]
+                crate::verif::probe(crate::verif::Probe::UpClauseSatisfied);
                 continue;
             }
 
@@ -199,11 +207,15 @@ impl UnitPropagate {
 
             let num_remaining = remaining_lits.clone().count();
             if num_remaining == 0 {
+                #[cfg(rsdd_verif)]
+                crate::verif::probe(crate::verif::Probe::UpConflict);
                 // UNSAT -- need to move a watcher and there are no remaining
                 // unassigned literals to watch
                 return UnitPropResult::UNSAT;
             } else if num_remaining == 1 {
                 // just found a unit. propagate it and move onto the next watcher
+                #[cfg(rsdd_verif)]
+                crate::verif::probe(crate::verif::Probe::UpUnitFound);
                 let new_unit = remaining_lits.next().unwrap();
                 match self.decide(cur_state, *new_unit) {
                     UnitPropResult::UNSAT => return UnitPropResult::UNSAT,
@@ -238,6 +250,12 @@ impl UnitPropagate {
                 };
 
                 let new_loc = new_lit.label().value_usize();
+                #[cfg(rsdd_verif)]
+                crate::verif::probe(if new_loc == candidate_unwatched {
+                    crate::verif::Probe::UpWatchMoved
+                } else {
+                    crate::verif::Probe::UpWatchMovedSecondChoice
+                });
 
                 if new_assignment.polarity() {
                     self.watch_list_neg[var_idx].swap_remove(watcher_idx);
@@ -310,6 +328,8 @@ impl SATSolver {
                 if new_set.contains(clause_idx) {
                     continue;
                 }
+                #[cfg(rsdd_verif)]
+                crate::verif::probe(crate::verif::Probe::SatHashSubsumed);
                 new_set.insert(clause_idx);
                 for (clause_lit, weight) in self.clauses[clause_idx].iter() {
                     if !self.top_state().model.is_set(clause_lit.label()) {
@@ -333,6 +353,8 @@ impl SATSolver {
                 }
                 for (clause_lit, weight) in self.clauses[clause_idx].iter() {
                     if clause_lit.label() == lit.label() {
+                        #[cfg(rsdd_verif)]
+                        crate::verif::probe(crate::verif::Probe::SatHashShrunk);
                         hash = hash.wrapping_mul(*weight);
                         break;
                     }
@@ -468,6 +490,28 @@ impl SATSolver {
         self.top_state()
             .model
             .difference(&self.state_stack[self.state_stack.len() - 2].model)
+    }
+
+    /// the current partial model (verification hook, read-only)
+    #[cfg(rsdd_verif)]
+    pub fn verif_model(&self) -> &PartialModel {
+        &self.top_state().model
+    }
+
+    /// number of states on the stack (verification hook, read-only)
+    #[cfg(rsdd_verif)]
+    pub fn verif_depth(&self) -> usize {
+        self.state_stack.len()
+    }
+
+    /// clauses currently watching the given literal (verification hook, read-only)
+    #[cfg(rsdd_verif)]
+    pub fn verif_watchers(&self, var: VarLabel, polarity: bool) -> &[usize] {
+        if polarity {
+            &self.up.watch_list_pos[var.value_usize()]
+        } else {
+            &self.up.watch_list_neg[var.value_usize()]
+        }
     }
 
     pub fn cur_hash(&self) -> u128 {
